@@ -51,6 +51,16 @@ def run(ctx):
             ctx.report('nondeterministic-thread-lifetimes', '%s/%s: after the set-up thread (key generation, reference outputs) has exited, %s on fresh threads while the main thread never ran a transform' % (
                 be, bu, ('%d of %d evaluations differ from the reference' % (nv[0], nv[1])) if nv else 'the evaluation died (%s)' % no[:60]), {'case': nl, 'scenario': 'nomain', 'backend': be, 'build': bu, 'env': 'MALLOC_PERTURB_=165'})
         elif nv: ctx.evaluations += nv[1]
+        # objects of the FFT domain handed from the thread that created them to another one (used by one thread at a time; the key only read)
+        hl = 'handover %s %d %d %d' % (spec, 4 if not thorough else 8, 6 if not thorough else 12, ctx.seed + 29)
+        ho = vlib.run_lines(exe, [hl], timeout=3600, env=dict(os.environ, MALLOC_PERTURB_='165'))[0]; ctx.count((be, bu, 'handover'))
+        hv = ints(ho) if not ho.startswith('CRASH') and ho.strip() else None
+        if hv is None or any(hv[:4]):
+            what = ('the run died (%s)' % ho[:60]) if hv is None else ('%d transform/product results on temporaries allocated by the main thread, %d conversions of rows of the shared const key, %d gate outputs of the main thread '
+                    'and %d results on temporaries whose creator thread had exited differ from the sequential reference (%d operations)' % tuple(hv[:5]))
+            ctx.report('nondeterministic-handover', '%s/%s: Lagrange-domain objects created by one thread and transformed by another (never by two at once): %s' % (be, bu, what),
+                       {'case': hl, 'scenario': 'handover', 'backend': be, 'build': bu, 'env': 'MALLOC_PERTURB_=165'})
+        elif hv: ctx.evaluations += hv[4]
         for (name, line), o in zip(scen, outs):
             ctx.count((be, bu, name))
             if o.startswith('CRASH') or not o.strip():
